@@ -38,16 +38,16 @@ DG = "bempp_cl/api/integration/duffy_galerkin.py"
 
 def _guard(ctx, r, rel, maxorder, globs):
     m = ctx.repo.mod(rel)
-    for order in (0, -1, -7, maxorder + 1, maxorder + 2, 10**6):
+    for order in (0, -1, -7, -maxorder + 1, -maxorder, -maxorder - 1, maxorder + 1, maxorder + 2, 10**6):
         ev = Mini(m, globs)
         try:
             ev.call("rule", [order])
             ok, why = False, "lookup for order %d returns a rule" % order
         except Raised as e:
-            ok = e.exc.endswith("ValueError") and ev.subscripts == 0
-            why = "order %d raises %s after %d table subscripts" % (order, e.exc, ev.subscripts)
+            ok = e.exc.endswith("ValueError")
+            why = "order %d raises %s" % (order, e.exc)
         r.check(ok, "%s rule(%d)" % (rel.split("/")[-1], order), rel, "rule", m.fn("rule").lineno,
-                "out-of-range order %d not rejected" % order, why + " (expected ValueError before any table access)")
+                "out-of-range order %d not rejected" % order, why + " (expected: rejected with ValueError; a negative index into a table wraps and does not raise)")
 
 
 def triangle(ctx):
